@@ -48,6 +48,7 @@ theorem applyPPs_err_kind (p : Path) (pps : List FilePP) (i : Nat) (f : File) (e
       split at h
       · simp at h; exact ⟨i, h.symm⟩
       · exact ih _ _ h
+    | raises => simp only [applyPPs, Option.some.injEq] at h; exact ⟨i, h.symm⟩
 
 theorem applyPPs_ops_path (p : Path) (pps : List FilePP) (i : Nat) (f : File) :
     ∀ op ∈ (applyPPs p pps i f).ops, op.path = p := by
@@ -68,6 +69,7 @@ theorem applyPPs_ops_path (p : Path) (pps : List FilePP) (i : Nat) (f : File) :
         rcases List.mem_cons.mp hop with h | h
         · subst h; rfl
         · exact ih _ _ op h
+    | raises => simp [applyPPs]
 
 /-- Error, operations and resulting content do not depend on the mode the file had. -/
 theorem applyPPs_mode_indep (p : Path) (pps : List FilePP) (i : Nat) (c : Content) (m₁ m₂ : Mode) :
@@ -86,6 +88,7 @@ theorem applyPPs_mode_indep (p : Path) (pps : List FilePP) (i : Nat) (c : Conten
       cases g c with
       | none => simp
       | some r => simpa using ih (i + 1) r.1 (editMode r.2 m₁) (editMode r.2 m₂)
+    | raises => simp [applyPPs]
 
 theorem applyPPs_err_none_iff (p : Path) (pps : List FilePP) (i : Nat) (f : File) :
     (applyPPs p pps i f).err = none ↔ (ppContent pps f.content).isSome = true := by
@@ -99,6 +102,7 @@ theorem applyPPs_err_none_iff (p : Path) (pps : List FilePP) (i : Nat) (f : File
       cases h : g f.content with
       | none => simp
       | some r => simpa using ih (i + 1) ⟨r.1, editMode r.2 f.mode⟩
+    | raises => simp [applyPPs, ppContent]
 
 theorem applyPPs_content (p : Path) (pps : List FilePP) (i : Nat) (f : File)
     (h : (applyPPs p pps i f).err = none) :
@@ -113,6 +117,7 @@ theorem applyPPs_content (p : Path) (pps : List FilePP) (i : Nat) (f : File)
       cases hg : g f.content with
       | none => simp [hg] at h
       | some r => simp only [hg] at h ⊢; simpa using ih (i + 1) ⟨r.1, editMode r.2 f.mode⟩ h
+    | raises => simp [applyPPs] at h
 
 /-- A `SetFileMode` in last position decides the mode, whatever the programs before it did to it. -/
 theorem applyPPs_ends_setMode (p : Path) (pre : List FilePP) (m : Nat) (i : Nat) (f : File)
@@ -130,6 +135,7 @@ theorem applyPPs_ends_setMode (p : Path) (pre : List FilePP) (m : Nat) (i : Nat)
       cases hg : g f.content with
       | none => simp [hg] at h
       | some r => simp only [hg] at h ⊢; exact ih (i + 1) ⟨r.1, editMode r.2 f.mode⟩ h
+    | raises => simp [applyPPs] at h
 
 theorem requestedMode_eq_some {pps : List FilePP} {fm : Nat} (h : requestedMode pps = some fm) :
     ∃ pre, pps = pre ++ [.setMode fm] := by
@@ -139,6 +145,7 @@ theorem requestedMode_eq_some {pps : List FilePP} {fm : Nat} (h : requestedMode 
   | some pp =>
     cases pp with
     | edit g => simp [hl] at h
+    | raises => simp [hl] at h
     | setMode m =>
       simp only [hl, Option.some.injEq] at h
       subst h
@@ -493,6 +500,7 @@ theorem applyPPs_not_denied (p : Path) (pps : List FilePP) (i : Nat) (f : File) 
         rcases List.mem_cons.mp hop with h | h
         · subst h; rfl
         · exact ih _ _ op h
+    | raises => simp [applyPPs]
 
 theorem afterOpen_not_denied (pps : List FilePP) (w : Write) (m : Mode) (fs : FS) (ops : List Op)
     (h : ∀ op ∈ ops, op.isDenied = false) : ∀ op ∈ (afterOpen pps w m fs ops).ops, op.isDenied = false := by
